@@ -72,6 +72,10 @@ type checkpoint struct {
 	SkipPreHandler map[string]bool
 
 	SubGraphs map[string]*checkpoint
+
+	// Step is the number of supersteps the run had used up when it was interrupted: the resumed run
+	// goes on counting from there, so that the step limit bounds the whole run
+	Step int
 }
 
 type nodePathKey struct{}
